@@ -101,7 +101,7 @@ func pmOps() []pmOp {
 		for _, prog := range []uint32{100003, 100005} {
 			netids := []string{"tcp", "udp"}
 			if v != 2 {
-				netids = append(netids, "tcp6")
+				netids = append(netids, "tcp6", "udp6")
 			}
 			for _, nid := range netids {
 				for _, a := range pmAddrs {
@@ -267,7 +267,7 @@ func (s *pmState) observe(cs func() any) {
 				s.c.violation("C27|getport-disagrees-with-map", fmt.Sprintf("GETPORT(%d,3,%d)=%d, registry says %d", prog, prot, r.Port, want), cs())
 			}
 			for _, v := range []uint32{3, 4} {
-				for _, nid := range []string{"tcp", "udp", "tcp6"} {
+				for _, nid := range []string{"tcp", "udp", "tcp6", "udp6"} {
 					if pmProt(nid) != prot {
 						continue
 					}
@@ -325,7 +325,7 @@ func init() {
 	vRegister(&vCheck{
 		id: "C27", level: "model_checking", flavour: "vtime",
 		shards: func(string) int { return 1 },
-		rule: "breadth-first search to fix-point over the registry states reachable with SET/UNSET through portmap v2 and rpcbind v3/v4 (programs {100003,100005}, netids {tcp,udp,tcp6}, ports {2049,635}) from 10 remote addresses (4 loopback forms, 3 non-loopback, a zone-qualified IPv6, an unparseable address, a look-alike host name); state = the registry; after every transition GETPORT for every key, GETADDR v3/v4 for every (program, netid) and DUMP v2/v3/v4 are decoded strictly and compared with the map model; a SET/UNSET from a non-loopback address must leave the registry unchanged. Additionally version/procedure/program mismatches are decoded strictly.",
+		rule: "breadth-first search to fix-point over the registry states reachable with SET/UNSET through portmap v2 and rpcbind v3/v4 (programs {100003,100005}, netids {tcp,udp,tcp6,udp6}, ports {2049,635}) from 10 remote addresses (4 loopback forms, 3 non-loopback, a zone-qualified IPv6, an unparseable address, a look-alike host name); state = the registry; after every transition GETPORT for every key, GETADDR v3/v4 for every (program, netid) and DUMP v2/v3/v4 are decoded strictly and compared with the map model; a SET/UNSET from a non-loopback address must leave the registry unchanged. Additionally version/procedure/program mismatches are decoded strictly.",
 		assumptions: []string{"SET on an existing key may update it or refuse; UNSET may remove the one protocol or all protocols of (program, version) — RFC 1833 and the implementation differ, both are accepted",
 			"an address that does not parse as an IP is 'not on a loopback address'"},
 		run: func(c *vCtx) {
